@@ -90,6 +90,8 @@ struct default_color_converter_impl< rgb_t, hsl_t >
          else
          {
             saturation = diff / ( 2.f - sum );
+            // float rounding of the quotient can exceed the channel range by an ulp (e.g. rgb (1,1,255))
+            if( saturation > 1.f ) saturation = 1.f;
 
          }
 
